@@ -82,6 +82,47 @@ def expand(W, text, depth=0):
     return t
 
 
+_SRC = {}
+
+def helper_body(cx, W, name):
+    """(parameters, whitespace-free body) of a free generator function that consists of one expression; None otherwise"""
+    import os
+    gs = [g for g in W.fns if g.name == name]
+    if len(gs) != 1: return None
+    g = gs[0]
+    path = os.path.join(cx.repo, W.qual)
+    if path not in _SRC: _SRC[path] = open(path, encoding="utf-8", errors="replace").read().split("\n")
+    src = _SRC[path]
+    later = [h.line for h in W.fns if h.line > g.line]
+    text = "\n".join(src[g.line - 1:(min(later) - 1) if later else len(src)])
+    i = text.find("{", text.find(")"))
+    if i < 0: return None
+    depth = 0; j = i
+    while j < len(text):
+        if text[j] == "{": depth += 1
+        elif text[j] == "}":
+            depth -= 1
+            if depth == 0: break
+        j += 1
+    body = text[i + 1:j].strip()
+    body = re.sub(r"//[^\n]*", "", body)
+    if ";" in body.rstrip(";") or re.search(r"\blet\b", body): return None
+    return _params(g), nz(body.rstrip(";"))
+
+
+def expand_call(cx, W, text, depth=0):
+    """`h(a, b)` with h a one-expression helper of the generator -> h's body with the parameters replaced by the arguments"""
+    t = nz(text)
+    m = re.fullmatch(r"&?(?:Self::)?(\w+)\((.*)\)", t)
+    if not m or depth > 2: return t
+    hb = helper_body(cx, W, m.group(1))
+    if hb is None: return t
+    params, body = hb
+    for prm, arg in zip(params, _split_args(m.group(2))):
+        body = re.sub(r"(?<![\w.])%s(?!\w)" % re.escape(prm), arg, body)
+    return body
+
+
 def subst_params(W, f_of_let, t):
     """replace parameters of the function a `let` lives in by the (unanimous) argument its callers pass"""
     if f_of_let is None: return t
@@ -137,6 +178,12 @@ def r1(cx, ast):
             init = None
             for l in f.events:
                 if l["k"] == "let" and l["pat"].replace(" ", "").split(":")[0] == arg and l["line"] <= e["line"]: init = l["text"]
+            if init is None and re.fullmatch(r"&?(?:Self::)?\w+\(.*\)", arg):
+                # pushed straight from a helper call: `enames.push(raw_ident(e.name))`
+                init = expand_call(cx, WholeFile(ast, GEN), arg)
+                if init == arg: init = None
+            elif init is not None:
+                init = expand_call(cx, WholeFile(ast, GEN), init)
             is_ident = init is not None and re.search(r"syn::parse_str|format_ident!|Ident::new", init.replace(" ", "")) is not None
             if recv not in FIELD_VECS and not (is_ident and re.search(r"(^|[^\w])(\w+\.)?name\b|\belt\b", init)): continue
             n += 1
